@@ -227,3 +227,19 @@ def replay_known(C, pid):
         os.unlink(path)
         out += list(zip(ks, rows))
     return out
+
+
+def pathfuncs_tie(ctx, C, ops):
+    """the string functions under the rule/traversal models vs the real ones; returns (n, mismatching rows)"""
+    n = 6000 if ctx.tier == "quick" else 300000
+    rows = C.run_family("pathfuncs", n, ctx.seed, ctx.tier)
+    bad = []
+    cnt = 0
+    for r in rows:
+        if r["case"].get("op") not in ops:
+            continue
+        cnt += 1
+        if r["go"] != r["m"]:
+            bad.append((r["case"], {"what": "%s: model and implementation of the string function disagree (tie T2 broken)" % r["case"]["op"],
+                                    "go": r["go"], "model": r["m"], "tie": True, "no_failing_input": True}))
+    return cnt, bad
